@@ -43,6 +43,8 @@ static long     n_ph, n_th, n_ms, n_sw, n_nest;
 static int      in_teardown;
 #define MAXSPAWN 4
 static int      spawn[MAXID][MAXSPAWN]; static int nspawn[MAXID];   /* objects the destructor of <id> allocates */
+static int      brkt[MAXID];          /* the destructor of <id> opens a stop/start window of its own */
+static long     n_win;               /* windows opened while a sweep's pending list was non-empty */
 static var      PObj;
 
 static int64_t id_of(var p) {
@@ -74,6 +76,15 @@ static void PObj_Del(var self) {
   if (o->id >= 0 && o->id < MAXID && fin_cnt[o->id] == 1) {
     /* a destructor that allocates: new managed plain probes, referenced from nowhere */
     int me = (int)o->id;
+    if (brkt[me] && G) {
+      /* critical section around releasing a C resource: keep the collector quiet, then restore it */
+      var gc = current(GC);
+      bool was = running(gc);
+      if (G->freenum > 0 && was) n_win++;
+      stop(gc);
+      { void* res = malloc(16); free(res); }
+      if (was) start(gc);
+    }
     int64_t save_newborn = newborn;
     for (int k = 0; k < nspawn[me]; k++) {
       int c = spawn[me][k];
@@ -182,8 +193,10 @@ static int __attribute__((noinline)) run_ops(char* ops) {
     if (c == 'n' || c == 'b' || c == 'N' || c == 'B' || c == 'w' || c == 'W' || c == 'a' || c == 'q') {
       if (colon) { *colon = 0; parse_marks(colon + 1); }
       char* plus = strchr(tok, '+'); if (plus) *plus = 0;
+      int tilde = strchr(tok, '~') != NULL;
       long id = strtol(tok + 1, NULL, 10);
       if (id < 0 || id >= MAXID || known[id]) { P(" | BADCASE"); return 0; }
+      brkt[id] = tilde;
       nspawn[id] = 0;
       while (plus && nspawn[id] < MAXSPAWN) {
         char* e; long cidv = strtol(plus + 1, &e, 10);
@@ -246,7 +259,7 @@ static int __attribute__((noinline)) run_ops(char* ops) {
   return 0;
 }
 
-static void trailer(void) { P(" ## ph=%ld th=%ld ms=%ld sw=%ld nest=%ld", n_ph, n_th, n_ms, n_sw, n_nest); }
+static void trailer(void) { P(" ## ph=%ld th=%ld ms=%ld sw=%ld nest=%ld win=%ld", n_ph, n_th, n_ms, n_sw, n_nest, n_win); }
 
 static void at_exit_dump(void) { G = NULL; emit_state(1); trailer(); fflush(OUT); }
 
